@@ -65,7 +65,7 @@ var props = map[string]propCfg{
 	"C14": {quick: q(40, 8), thorough: th(20 * time.Minute)},
 	"C15": {quick: q(30, 8), thorough: th(20 * time.Minute)},
 	"C16": {quick: q(150, 8), thorough: th(20 * time.Minute)},
-	"C17": {quick: q(120, 8), thorough: th(30 * time.Minute), race: true},
+	"C17": {quick: q(400, 8), thorough: th(30 * time.Minute), race: true},
 	"C18": {quick: q(1500, 8), thorough: th(15 * time.Minute)},
 	"C20": {quick: q(15, 8), thorough: th(30 * time.Minute)},
 }
